@@ -386,7 +386,7 @@ fn case() -> impl Strategy<Value = RunCase> {
 }
 
 fn run(r: &Run) {
-    r.prop("whole_runs", r.tier.pick(400, 12_000), case, oracle);
+    r.prop("whole_runs", r.tier.pick(400, 50_000), case, oracle);
 }
 
 fn replay(_r: &Run, check: &str, case: &Value) -> Option<Outcome> {
